@@ -449,6 +449,9 @@ def main() -> None:  # noqa: PLR0915
     else:
         kinds = {"fine": ["var_0 = fine(%d)"], "fine2": ["var_0 = fine(%d)", "var_1 = fine(var_0)"],
                  "die": ["var_0 = die(%d)"], "hang": ["var_0 = hang(%d)"]}
+        # observers attached: a failed batch is re-run test by test, and those runs must observe as well
+        inproc.add_remote_observer(ato.RemoteAssertionTraceObserver())
+        sub.add_remote_observer(ato.RemoteAssertionTraceObserver())
         for pattern in sc["patterns"]:
             tests, refs = [], []
             for i, k in enumerate(pattern):
